@@ -55,8 +55,8 @@ CHECKS['C12'] = dict(
    note='Coq kernel, no axioms; extraction + OCaml driver; Rust harness; independent Python grid oracle; not covered: ConversionFailed in TryFrom, f64 histories, usize overflow of height*width', ref='DESIGN.md §5 C12')
 CHECKS['C13'] = dict(
    technique='Coq proof (panic-aware model never panics and terminates within MAX_ITERATIONS for every matrix and arithmetic; shape/normalisation/Rayleigh-quotient facts on Ok; exit means small relative change) + bit-for-bit correspondence incl. runs to the iteration cap + exact residual/eigenvalue oracle',
-   text='6 theorems: c13_rayleigh_error_bound (under an explicit orthonormal eigen-decomposition with |lam_i| <= g |lam_0|: the k-th Rayleigh quotient of the model\'s own normalised iteration satisfies |rho_k - lam_0| c_0^2 <= 2 |lam_0| g^(2k+2) sum c_i^2), c13_rayleigh_residual (the returned eigenvalue minimises the residual of the returned vector), c13_total (all instances: no panic, at most MAX_ITERATIONS iterations, n x 1 vector or NoConvergence, non-square/empty rejected), c13_shape_norm (R: largest component 1, lambda = Rayleigh quotient), c13_exit_means_small_change, c13_accuracy_partial (n = 1 only; the spectral accuracy bounds are decided by the oracle on symmetric Q D Q^T with gap <= 1/2)',
-   note=COMMON_NOTE + '; the link from the stopping rule to the eigenvalue error and the eigenvector residual bound are measured by the oracle, not proved', ref='DESIGN.md §5 C13')
+   text='11 theorems: c13_stop_rule_accuracy / _after / _pm / _start (the STOPPING RULE implies the eigenvalue accuracy |lambda - lam_0| < tol |lam_0| with C = 1, under the explicit eigen-decomposition with gap g <= 1/2, once the previous estimate is within (1-g)|lam_0|/2 of lam_0; in particular for EVERY Ok answer of power_method when 4 g^2 sum_{i>=1} c_i^2 <= (1-g) c_0^2), c13_rayleigh_error_contracts (inside that basin the error contracts by 2 g^2 per iteration, the basin is invariant), c13_rayleigh_error_bound (under an explicit orthonormal eigen-decomposition with |lam_i| <= g |lam_0|: the k-th Rayleigh quotient of the model\'s own normalised iteration satisfies |rho_k - lam_0| c_0^2 <= 2 |lam_0| g^(2k+2) sum c_i^2), c13_rayleigh_residual (the returned eigenvalue minimises the residual of the returned vector), c13_total (all instances: no panic, at most MAX_ITERATIONS iterations, n x 1 vector or NoConvergence, non-square/empty rejected), c13_shape_norm (R: largest component 1, lambda = Rayleigh quotient), c13_exit_means_small_change, c13_accuracy_partial (n = 1 only; the spectral accuracy bounds are decided by the oracle on symmetric Q D Q^T with gap <= 1/2)',
+   note=COMMON_NOTE + '; an exit before the basin is entered (start vector almost orthogonal to the dominant eigenvector), the eigenvector residual bound, the spectral theorem and rounding are measured by the oracle, not proved', ref='DESIGN.md §5 C13')
 
 CHECKS['C08'] = dict(
    technique='Coq proof (Gaussian elimination with scaled partial pivoting on functional matrices: any returned vector solves A x = b; every matrix with a non-trivial left null vector is refused for every right-hand side; shape errors, no panic; triangular substitutions) + bit-for-bit correspondence on all container types + exact-rational oracle',
